@@ -136,8 +136,8 @@ def check(res, tier, seed):
         binary = C.build_harness(wd, race=True)
         n = 16 if tier == "quick" else 120
         # concurrent workloads, and teardown paths with peers that keep sending (late responses racing Close)
-        for fams in (["conc", "closures", "hub", "nest", "streamtear", "bursteof", "linkend", "cancel", "relay", "enumrace", "sharedhooks", "closurestress"],):
-            recs, rc, o = C.run_job(binary, wd, "race", dict(family="sys", seed=seed, n=n, cases=fams, params=dict(percase=10, workers=8, perworker=25)), timeout=1500,
+        for fams in (["conc", "closures", "hub", "nest", "streamtear", "bursteof", "linkend", "cancel", "relay", "enumrace", "sharedhooks", "closurestress", "racestress"],):
+            recs, rc, o = C.run_job(binary, wd, "race", dict(family="sys", seed=seed, n=n, cases=fams, params=dict(percase=10, workers=8, perworker=25, rounds=(120 if tier == "quick" else 1500))), timeout=1500,
                                     env_extra=dict(GORACE="halt_on_error=0"))
             for m in re.finditer(r"WARNING: DATA RACE.*?={18}", o, re.S):
                 rep = m.group(0)
@@ -146,6 +146,10 @@ def check(res, tier, seed):
             if rc != 0 and not race_reports and "DATA RACE" not in o:
                 if "concurrent map" in o:
                     race_reports.append(o[-3000:])
+                elif "send on closed channel" in o or "close of closed channel" in o:
+                    # a channel closed by one goroutine while another sends on it: the conflicting pair the race
+                    # detector also knows as closechan / chansend
+                    race_reports.append("CHANNEL-CLOSE-RACE " + o[-3000:])
             res.coverage["race_run_records"] = len(recs)
             for r in recs:
                 for note in r.get("notes") or []:
@@ -157,6 +161,11 @@ def check(res, tier, seed):
     for rep in race_reports[:3]:
         hits += 1
         where = re.findall(r"(/[\w/\.\-]*panrpc/go/pkg/\S+:\d+|pkg/\w+/\w+\.go:\d+)", rep)
+        if rep.startswith("CHANNEL-CLOSE-RACE"):
+            line = next((l for l in rep.splitlines() if l.startswith("panic:")), "panic")
+            res.violation("race:channel-close", "implementation violates C20: the process died in the race run with '%s': one goroutine closes a channel of panrpc while another sends on it (unsynchronised close / send)" % line[:200],
+                          dict(kind="race", output=rep[-3000:]))
+            continue
         if rep.startswith("HOOKS-VALUE-WRITTEN"):
             res.violation("shared-hooks-written", "implementation violates C20: " + rep[len("HOOKS-VALUE-WRITTEN "):], dict(kind="sys", family="sharedhooks", note=rep))
             continue
